@@ -21,6 +21,19 @@ package baggage
 //   lastwins <gen> <xa> <xb>     => result(a) result(b) result(a,b)
 //   roundtrip <gen> <mlist>      => result(New) <result of Parse(String()) | ->
 //   setdel <gen> <mlist> | <op>... => <bag at creation>... | <bag at the end>...     op: s:<recv>:<mspec> | d:<recv>:<xkey>
+//   lookup <gen> <mlist> | <xkey>... => result(New) <Len()> <len(Members())> | (<Member(key): member obs or - for the zero Member> <result of New(Member(key))>)...
+//   alias <gen> <ptable> | <step>... => (<all earlier values unchanged 0|1> <dump of the value the step created | ->)...
+//         ptable: - | <pspec>+<pspec>...  : ONE shared []Property table (len == cap); a second shared table of 8 Members starts zeroed.
+//         step: nm:<r|e>:<xkey>:<xval>:<lo>:<hi>  member value #j = NewMemberRaw/NewMember(key, val, ptable[lo:hi]...)   dump ok:<member obs>|err
+//               op:<i>:<pspec>                    ptable[i] = property (overwrite after earlier calls returned)
+//               ap:<lo>:<hi>:<pspec>              append(ptable[lo:hi], property): writes the spare capacity
+//               tm:<i>:<j>                        mtable[i] = member value #j
+//               am:<lo>:<hi>:<j>                  append(mtable[lo:hi], member value #j)
+//               nb:<lo>:<hi>                      baggage value #b = New(mtable[lo:hi]...)                      dump result
+//               sm:<b>:<j> / dm:<b>:<xkey>        baggage value = bags[b].SetMember(member #j) / DeleteMember      dump bag
+//               mm:<b> / mp:<j> / mq:<b>:<xkey>   overwrite+append the slice returned by Members() / Properties() / Member(key).Properties()
+//         after EVERY step every member value (Key, Value, Properties, String) and every baggage value (Members, Member(k), String,
+//         Len, and its copy in a context) created so far is re-read and compared with what was recorded when it was created.
 
 import (
 	"context"
@@ -341,6 +354,306 @@ func (e vC11Em) setdel(gen string, ms []vC11Mem, ops []string) {
 	e.out.Line("%s => %s | %s", in, strings.Join(created, " "), strings.Join(final, " "))
 }
 
+// lookup: Member(key) / Members() / Len() on the same value, and the looked-up member handed back to New
+func (e vC11Em) lookup(gen string, ms []vC11Mem, keys []string) {
+	b, err := New(vC11Build(ms)...)
+	in := "lookup " + gen + " " + vC11MemsSpec(ms) + " |"
+	for _, k := range keys {
+		in += " " + vHex(k)
+	}
+	obs := vC11Res(b, err) + " " + strconv.Itoa(b.Len()) + " " + strconv.Itoa(len(b.Members())) + " |"
+	for _, k := range keys {
+		m := b.Member(k)
+		// exported API only: the zero Member has no key, no value and no properties (no valid member has an empty key)
+		mo := "-"
+		if m.Key() != "" || m.Value() != "" || len(m.Properties()) != 0 {
+			mo = vC11MemberObs(m)
+		}
+		b2, err2 := New(m)
+		obs += " " + mo + " " + vC11Res(b2, err2)
+	}
+	e.out.Line("%s => %s", in, obs)
+}
+
+// ---------------------------------------------------------------- alias scripts
+
+func vC11PropOfSpec(ps string) vC11Prop {
+	g := strings.Split(ps, ".")
+	p := vC11Prop{kind: g[0][0]}
+	if len(g) > 1 {
+		p.key = vUnhex(g[1])
+	}
+	if len(g) > 2 {
+		p.val = vUnhex(g[2])
+	}
+	return p
+}
+
+// what the alias scripts overwrite returned slices with (built through the exported constructors)
+var vC11ZZProp, _ = NewKeyValuePropertyRaw("zz", "zz")
+var vC11ZZMember, _ = NewMemberRaw("zz", "zz", vC11ZZProp)
+
+func vC11MemDump(m Member) string {
+	return vC11MemberObs(m) + ":" + vHex(m.String())
+}
+
+func vC11BagDump(b Baggage) string {
+	s := vC11Bag(b) + "|" + strconv.Itoa(b.Len())
+	pieces := strings.Split(b.String(), ",")
+	sort.Strings(pieces)
+	s += "|" + vHex(strings.Join(pieces, ","))
+	ms := b.Members()
+	sort.Slice(ms, func(i, j int) bool { return ms[i].Key() < ms[j].Key() })
+	for _, m := range ms {
+		s += "|" + vC11MemDump(b.Member(m.Key()))
+	}
+	return s
+}
+
+func vC11Clamp(lo, hi, n int) (int, int) {
+	if lo > n {
+		lo = n
+	}
+	if hi > n {
+		hi = n
+	}
+	if hi < lo {
+		hi = lo
+	}
+	return lo, hi
+}
+
+func (e vC11Em) alias(gen, ptable string, steps []string) {
+	var pt []Property
+	if ptable != "-" {
+		for _, ps := range strings.Split(ptable, "+") {
+			pt = append(pt, vC11PropOfSpec(ps).build())
+		}
+	}
+	pt = pt[:len(pt):len(pt)]
+	mt := make([]Member, 8)
+	var mems []Member
+	var memRec []string
+	var bags []Baggage
+	var bagRec []string
+	var ctxs []context.Context
+	unchanged := func() string {
+		for i, m := range mems {
+			if vC11MemDump(m) != memRec[i] {
+				return "0"
+			}
+		}
+		for i, b := range bags {
+			if vC11BagDump(b) != bagRec[i] || vC11BagDump(FromContext(ctxs[i])) != bagRec[i] {
+				return "0"
+			}
+		}
+		return "1"
+	}
+	addBag := func(b Baggage) {
+		bags = append(bags, b)
+		bagRec = append(bagRec, vC11BagDump(b))
+		parent := context.Background()
+		if len(ctxs) > 0 {
+			parent = ctxs[len(ctxs)-1]
+		}
+		ctxs = append(ctxs, ContextWithBaggage(parent, b))
+	}
+	atoi := func(s string) int { n, _ := strconv.Atoi(s); return n }
+	var obs []string
+	for _, st := range steps {
+		f := strings.Split(st, ":")
+		dump := "-"
+		switch f[0] {
+		case "nm":
+			lo, hi := vC11Clamp(atoi(f[4]), atoi(f[5]), len(pt))
+			var m Member
+			var err error
+			if f[1] == "e" {
+				m, err = NewMember(vUnhex(f[2]), vUnhex(f[3]), pt[lo:hi]...)
+			} else {
+				m, err = NewMemberRaw(vUnhex(f[2]), vUnhex(f[3]), pt[lo:hi]...)
+			}
+			mems = append(mems, m)
+			memRec = append(memRec, vC11MemDump(m))
+			if err != nil {
+				dump = "err"
+			} else {
+				dump = "ok:" + vC11MemberObs(m)
+			}
+		case "op":
+			if i := atoi(f[1]); i < len(pt) {
+				pt[i] = vC11PropOfSpec(f[2]).build()
+			}
+		case "ap":
+			lo, hi := vC11Clamp(atoi(f[1]), atoi(f[2]), len(pt))
+			_ = append(pt[lo:hi], vC11PropOfSpec(f[3]).build())
+		case "tm":
+			if i, j := atoi(f[1]), atoi(f[2]); i < len(mt) && j < len(mems) {
+				mt[i] = mems[j]
+			}
+		case "am":
+			lo, hi := vC11Clamp(atoi(f[1]), atoi(f[2]), len(mt))
+			if j := atoi(f[3]); j < len(mems) {
+				_ = append(mt[lo:hi], mems[j])
+			}
+		case "nb":
+			lo, hi := vC11Clamp(atoi(f[1]), atoi(f[2]), len(mt))
+			b, err := New(mt[lo:hi]...)
+			addBag(b)
+			dump = vC11Res(b, err)
+		case "sm":
+			if bi, j := atoi(f[1]), atoi(f[2]); bi < len(bags) && j < len(mems) {
+				b, _ := bags[bi].SetMember(mems[j])
+				addBag(b)
+				dump = "ok:" + vC11Bag(b)
+			}
+		case "dm":
+			if bi := atoi(f[1]); bi < len(bags) {
+				b := bags[bi].DeleteMember(vUnhex(f[2]))
+				addBag(b)
+				dump = "ok:" + vC11Bag(b)
+			}
+		case "mm":
+			if bi := atoi(f[1]); bi < len(bags) {
+				ms := bags[bi].Members()
+				for i := range ms {
+					ms[i] = vC11ZZMember
+				}
+				ms = append(ms, vC11ZZMember)
+				_ = ms
+			}
+		case "mp":
+			if j := atoi(f[1]); j < len(mems) {
+				ps := mems[j].Properties()
+				for i := range ps {
+					ps[i] = vC11ZZProp
+				}
+				ps = append(ps, vC11ZZProp)
+				_ = ps
+			}
+		case "mq":
+			if bi := atoi(f[1]); bi < len(bags) {
+				ps := bags[bi].Member(vUnhex(f[2])).Properties()
+				for i := range ps {
+					ps[i] = vC11ZZProp
+				}
+				ps = append(ps, vC11ZZProp)
+				_ = ps
+			}
+		}
+		obs = append(obs, unchanged(), dump)
+	}
+	in := "alias " + gen + " " + ptable + " |"
+	for _, st := range steps {
+		in += " " + st
+	}
+	e.out.Line("%s => %s", in, strings.Join(obs, " "))
+}
+
+func vC11AliasGen(r *vRand) (string, []string) {
+	np := 1 + r.Intn(5)
+	good := func() vC11Prop {
+		p := vC11Prop{kind: 'k', key: vPick(r, vC11PropKeys)}
+		switch r.Intn(4) {
+		case 1:
+			p.kind = 'r'
+			p.val = vPick(r, vC11ValPieces)
+		case 2:
+			p.kind = 'r'
+		case 3:
+			if r.Intn(6) == 0 {
+				p = vC11PropGen(r)
+			}
+		}
+		return p
+	}
+	ps := make([]string, np)
+	for i := range ps {
+		ps[i] = good().spec()
+	}
+	var steps []string
+	nm, nb := 0, 0
+	itoa := strconv.Itoa
+	addNM := func() {
+		c := "r"
+		v := ""
+		for i := r.Intn(3); i > 0; i-- {
+			v += vPick(r, vC11ValPieces)
+		}
+		if r.Intn(6) == 0 {
+			c = "e"
+			v = valueEscape(v)
+		}
+		lo := r.Intn(np + 1)
+		hi := lo + r.Intn(np+1-lo)
+		if r.Intn(3) == 0 {
+			lo = 0
+		}
+		k := vPick(r, vC11Keys)
+		if r.Intn(8) == 0 {
+			k = vPick(r, vC11BadKeys)
+		}
+		steps = append(steps, "nm:"+c+":"+vHex(k)+":"+vHex(v)+":"+itoa(lo)+":"+itoa(hi))
+		nm++
+	}
+	addNM()
+	steps = append(steps, "tm:0:0")
+	pop := 1 // populated prefix of the member table
+	for r.Intn(3) > 0 && pop < 4 {
+		addNM()
+		steps = append(steps, "tm:"+itoa(pop)+":"+itoa(nm-1))
+		pop++
+	}
+	n := 4 + r.Intn(10)
+	for i := 0; i < n; i++ {
+		switch x := r.Intn(24); {
+		case x < 4:
+			addNM()
+		case x < 7:
+			steps = append(steps, "op:"+itoa(r.Intn(np))+":"+good().spec())
+		case x < 9:
+			lo := r.Intn(np + 1)
+			hi := lo + r.Intn(np+1-lo)
+			steps = append(steps, "ap:"+itoa(lo)+":"+itoa(hi)+":"+good().spec())
+		case x < 12:
+			steps = append(steps, "tm:"+itoa(r.Intn(4))+":"+itoa(r.Intn(nm)))
+		case x < 13:
+			lo := r.Intn(4)
+			steps = append(steps, "am:"+itoa(lo)+":"+itoa(lo+r.Intn(3))+":"+itoa(r.Intn(nm)))
+		case x < 16:
+			lo := 0
+			if r.Intn(3) == 0 {
+				lo = r.Intn(pop)
+			}
+			hi := lo + 1 + r.Intn(pop-lo)
+			switch r.Intn(10) {
+			case 0:
+				hi = 8
+			case 1:
+				hi = lo
+			}
+			steps = append(steps, "nb:"+itoa(lo)+":"+itoa(hi))
+			nb++
+		case x < 18 && nb > 0:
+			steps = append(steps, "sm:"+itoa(r.Intn(nb))+":"+itoa(r.Intn(nm)))
+			nb++
+		case x < 19 && nb > 0:
+			steps = append(steps, "dm:"+itoa(r.Intn(nb))+":"+vHex(vPick(r, vC11Keys)))
+			nb++
+		case x < 20 && nb > 0:
+			steps = append(steps, "mm:"+itoa(r.Intn(nb)))
+		case x < 22:
+			steps = append(steps, "mp:"+itoa(r.Intn(nm)))
+		case nb > 0:
+			steps = append(steps, "mq:"+itoa(r.Intn(nb))+":"+vHex(vPick(r, vC11Keys)))
+		default:
+			steps = append(steps, "tm:"+itoa(r.Intn(4))+":"+itoa(r.Intn(nm)))
+		}
+	}
+	return strings.Join(ps, "+"), steps
+}
+
 // ---------------------------------------------------------------- generators
 
 var vC11Keys = []string{"a", "b", "c", "k", "key", "k1", "k2", "x-y", "a.b", "%", "!#$&'*+-.^_`|~", "Z9"}
@@ -653,7 +966,37 @@ func vC11BigHeader(r *vRand) (string, string) {
 	}
 }
 
+// two headers whose concatenation straddles the member-count limit after de-duplication / the total size limit
+func vC11BigPair(r *vRand) (string, string, string) {
+	if r.Bool() {
+		n1 := 90 + r.Intn(20)
+		overlap := r.Intn(30)
+		union := 178 + r.Intn(6)
+		n2 := union - n1 + overlap
+		var pa, pb []string
+		for i := 0; i < n1; i++ {
+			pa = append(pa, "k"+strconv.Itoa(i)+"=a")
+		}
+		for i := n1 - overlap; i < n1-overlap+n2; i++ {
+			pb = append(pb, "k"+strconv.Itoa(i)+"=b")
+		}
+		return "count", strings.Join(pa, ","), strings.Join(pb, ",")
+	}
+	t := 8189 + r.Intn(7)
+	la := 4000 + r.Intn(96)
+	return "total8192", "a=" + strings.Repeat("a", la-2), "b=" + strings.Repeat("b", t-la-1-2)
+}
+
 func vC11TrimStr(r *vRand) string {
+	if r.Intn(5) == 0 { // ASCII only: the fast path on both sides
+		pieces := []string{" ", "\t", "\n", "\r", "a", "k=v", "x y", "\v", "\f", "~"}
+		n := r.Intn(6)
+		var sb strings.Builder
+		for i := 0; i < n; i++ {
+			sb.WriteString(vPick(r, pieces))
+		}
+		return sb.String()
+	}
 	pieces := []string{" ", "\t", "\n", "\v", "\f", "\r", "\u0085", "\u00a0", "\u1680", "\u2000", "\u200a", "\u200b", "\u2028", "\u2029", "\u202f", "\u205f", "\u3000", "\ufeff", "a", "k", "\u00e9", "\xc2", "\x85", "\xa0", "\xe2\x80", "\x80", "\xe3\x80\x80\x80", "\xff", "\U0001F600", "\xf0\x9f\x98"}
 	n := r.Intn(7)
 	var sb strings.Builder
@@ -720,6 +1063,14 @@ func TestVerifC11Core(t *testing.T) {
 				e.roundtrip(f[1], vC11ParseMems(f[2]))
 			case "setdel":
 				e.setdel(f[1], vC11ParseMems(f[2]), f[4:])
+			case "lookup":
+				keys := []string{}
+				for _, k := range f[4:] {
+					keys = append(keys, vUnhex(k))
+				}
+				e.lookup(f[1], vC11ParseMems(f[2]), keys)
+			case "alias":
+				e.alias(f[1], f[2], f[4:])
 			}
 		}
 		return
@@ -795,21 +1146,24 @@ func TestVerifC11Core(t *testing.T) {
 		case x < 17:
 			e.member("rnd", vC11MemGen(r))
 		case x < 23:
-			if r.Intn(25) == 0 {
+			if r.Intn(10) == 0 {
 				g, ms := vC11BigMems(r)
 				e.new(g, ms)
 			} else {
 				e.new("rnd", vC11Mems(r, vC11MemGen, 4))
 			}
 		case x < 27:
-			if r.Bool() {
+			if r.Intn(12) == 0 {
+				g, ms := vC11BigMems(r)
+				e.str(g, ms)
+			} else if r.Bool() {
 				e.str("good", vC11Mems(r, vC11GoodMem, 5))
 			} else {
 				e.str("rnd", vC11Mems(r, vC11MemGen, 4))
 			}
 		case x < 47:
 			switch y := r.Intn(40); {
-			case y == 0:
+			case y < 3:
 				g, ms := vC11BigMems(r)
 				e.roundtrip(g, ms)
 			case y < 30:
@@ -818,6 +1172,11 @@ func TestVerifC11Core(t *testing.T) {
 				e.roundtrip("rnd", vC11Mems(r, vC11MemGen, 4))
 			}
 		case x < 55:
+			if r.Intn(25) == 0 {
+				g, a, b := vC11BigPair(r)
+				e.lastwins(g, a, b)
+				continue
+			}
 			a, b := vC11Header(r), vC11Header(r)
 			switch r.Intn(6) {
 			case 0:
@@ -829,10 +1188,43 @@ func TestVerifC11Core(t *testing.T) {
 			}
 			e.lastwins("ser", a, b)
 		case x < 63:
+			if r.Intn(40) == 0 {
+				// edits on a baggage at the member limit: SetMember/DeleteMember do not re-check the limits
+				c := 179 + r.Intn(2)
+				var ms []vC11Mem
+				for j := 0; j < c; j++ {
+					ms = append(ms, vC11Mem{ctor: "raw", key: "k" + strconv.Itoa(j), val: strconv.Itoa(j % 7)})
+				}
+				ops := []string{"s:0:" + vC11Mem{ctor: "raw", key: "new1", val: "v"}.spec(), "s:1:" + vC11Mem{ctor: "raw", key: "new2", val: "v"}.spec(),
+					"s:2:" + vC11Mem{ctor: "raw", key: "k" + strconv.Itoa(r.Intn(c)), val: "changed"}.spec(), "d:" + strconv.Itoa(r.Intn(4)) + ":" + vHex("k"+strconv.Itoa(r.Intn(c)))}
+				e.setdel("limit", ms, ops)
+				continue
+			}
 			e.setdel("rnd", vC11Mems(r, vC11GoodMem, 4), vC11Ops(r))
+		case x < 66:
+			ms := vC11Mems(r, vC11GoodMem, 5)
+			if r.Intn(5) == 0 {
+				ms = vC11Mems(r, vC11MemGen, 4)
+			}
+			if r.Intn(40) == 0 {
+				_, ms = vC11BigMems(r)
+			}
+			nk := 1 + r.Intn(4)
+			keys := make([]string, nk)
+			for j := range keys {
+				if len(ms) > 0 && r.Intn(3) > 0 {
+					keys[j] = ms[r.Intn(len(ms))].key
+				} else {
+					keys[j] = vC11Key(r, vC11Keys, vC11BadKeys)
+				}
+			}
+			e.lookup("rnd", ms, keys)
+		case x < 72:
+			pt, steps := vC11AliasGen(r)
+			e.alias("rnd", pt, steps)
 		default:
 			switch y := r.Intn(40); {
-			case y == 0:
+			case y < 2:
 				g, h := vC11BigHeader(r)
 				e.parse(g, h)
 			case y < 8:
